@@ -30,11 +30,28 @@ KF_C12(c) ==
 \* boundary) that splits a text run changes min_width and with it the TooNarrow boundary of an
 \* enclosing prefixed block.  Class: the two results differ only in kind (one Ok, one TooNarrow),
 \* and both are exactly what the recorded algorithm (Tree!Est, Render!WidthMinus) predicts.
+\* C13 "empty-block-glues-text": an element that is pruned because it has no content leaves no trace, not even
+\* the line break a block makes: `x<div></div>y` renders "xy".  White space written between two such blocks, or
+\* next to one, is then the only thing that separates the words (`x<div></div> y` renders "x y"), so the
+\* rewrite changes the output.  Class: both results Ok and equal up to white space and line breaks, the document
+\* has a block-level element without visible content, and both results are exactly what the specification
+\* (which prunes like the code) predicts.
+BlockNames == {"div", "p", "blockquote", "ul", "ol", "dl", "dt", "dd", "table", "h1", "h2", "h3", "h4", "h5", "h6",
+               "section", "article", "center", "header", "footer", "main", "aside", "nav", "pre", "li"}
+HasEmptyBlock(dom) == LET ns == NodesSeq(dom) IN
+                      \E i \in 1..Len(ns) : ns[i].k = "e" /\ ns[i].h /\ ns[i].n \in BlockNames /\ NonWs(FlowText(ns[i])) = <<>>
+AllNonSpace(res) == Concat([i \in 1..Len(res.lines) |-> NonSpaceCodes(Plain(NoFrags(res.lines[i])))])
 KF_C13(c) ==
   IF /\ Len(c.runs) = 2
      /\ {c.runs[1].res.k, c.runs[2].res.k} = {"ok", "narrow"}
      /\ ModelAgrees(c, c.runs[1]) /\ ModelAgrees(c, c.runs[2])
-  THEN "estimate-per-text-node" ELSE ""
+  THEN "estimate-per-text-node"
+  ELSE IF /\ Len(c.runs) = 2
+          /\ c.runs[1].res.k = "ok" /\ c.runs[2].res.k = "ok"
+          /\ AllNonSpace(c.runs[1].res) = AllNonSpace(c.runs[2].res)
+          /\ HasEmptyBlock(Dom1(c, c.runs[1]))
+          /\ ModelAgrees(c, c.runs[1]) /\ ModelAgrees(c, c.runs[2])
+  THEN "empty-block-glues-text" ELSE ""
 
 \* C15 "pad-blank-line": with pad_block_width a blank line inside <pre> is padded with spaces, counts
 \* as content for start_block, and the next block is preceded by one more empty line than without
